@@ -22,8 +22,16 @@ FieldKinds ==
                         t \in {"plain", "unrouted", "cors", "echo", "empty", "panic"},
                         c \in {"ka", "close", "none"}, v \in {"1.0", "1.1"}, b \in {0, 2} }
 
-Kinds == IF Catalogue = "loop" THEN LoopKinds ELSE FieldKinds
-Scripts == UNION { [1..n -> Kinds] : n \in 1..MaxReq }
+\* head truncated by the client's half-close: hl bytes of a head, then shutdown(write); cls = where the harness cuts
+\* (1 inside the start line, 2 right after the start line, 3 inside a header line, 4 after a complete header line)
+Trunc(hl, cls) ==
+  [k |-> "trunc", hl |-> hl, dl |-> cls, bl |-> 0, wf |-> FALSE, m |-> "GET", tgt |-> "plain", conn |-> "ka", ver |-> "1.1"]
+TruncKinds == { Trunc(hl, cls) : hl \in 1..2, cls \in 1..4 }
+TruncCatalogue == { Rq("GET", "plain", "ka", "1.1", 0), Rq("POST", "echo", "ka", "1.1", 2), Idle } \cup TruncKinds
+
+Kinds == CASE Catalogue = "loop" -> LoopKinds [] Catalogue = "trunc" -> TruncCatalogue [] OTHER -> FieldKinds
+\* a truncated head is followed by the client's half-close: it can only be the last element
+Scripts == { s \in UNION { [1..n -> Kinds] : n \in 1..MaxReq } : \A i \in 1..(Len(s) - 1) : ~IsTrunc(s[i]) }
 
 MCInit == \E s \in Scripts : Init0(s)
 MCSpec == MCInit /\ [][Next]_vars /\ WF_vars(ClientStep) /\ WF_vars(ServerStep)
